@@ -9,7 +9,8 @@ RULE = ('(a) every pattern of (buy|sell) x (smaller|equal|larger than the curren
         'fills, driven on a real Portfolio, checked after every prefix; (b) long random multi-asset ladders; '
         '(c) random broker-level sequences where marks come from broker.update. Oracle: integer net of delivered '
         'fills, latest price seen (fill or mark), exact products. Non-trivial: the case closes a position to exactly '
-        'zero and re-opens it, or flips long<->short in one fill; distinct = distinct (request kind, side) sequence.')
+        'zero and re-opens it, or flips long<->short in one fill; distinct = distinct (request kind, side) sequence.'
+        ' Widened after seeded changes: 15% of the ladders use positions of 1e5-5e6 units reduced to / flipped by a few units; several portfolios holding the same asset; repeated marks at one instant.')
 ASSUMPTIONS = [
     'market value is one float multiplication: compared at 1e-12 relative; sums at 1e-9',
     'icontract class invariants (no flat position kept; equity == cash + market value) are evaluated on every '
